@@ -173,6 +173,11 @@ def gen_window_case(rng, k):
   b = [(l, l + (F(0) if (k // 4) % 3 == 2 else core.dy(rng, F(1, 2), 2, 2))) for l in lo]
   cb = None if k % 2 else (sum(x for x, _ in b), sum(y for _, y in b) + 1)
   s = [x if k % 3 == 0 else (y if k % 3 == 1 else (x + y) / 2) for x, y in b]
+  if k % 6 == 4 and n >= 2:
+    # bounds on both sides of zero and an in-bounds flow that is not zero but has zero total (load shifted between slots)
+    b = [(F(-1), F(1))] * n
+    cb = None
+    s = [F(1, 2), F(-1, 2)] + [F(0)] * (n - 2) if k % 12 == 4 else [F(1)] + [F(0)] * (n - 2) + [F(-1)]
   return {'kind': 'win', 'n': n, 'bounds': b, 'cb': cb, 'w': F(1 + k % 3), 'c': F(k % 3), 's': s, 'p': [F(1, 2)] * n}
 
 
